@@ -234,19 +234,46 @@ func writerCases(r *rng.R, n int) {
 		fs := &fakeClientStream{}
 		w := stefgrpc.VerifNewGrpcWriter(fs)
 		k := 1 + r.Intn(4)
+		// a LENDING producer (every second case): header and content of all chunks of the case
+		// live in two buffers that are reused from call to call, as pkg.FrameEncoder does with its
+		// compressed-frame buffer; ChunkWriter lends the slices for the duration of the call only.
+		// One-part chunks (empty header or empty content) are frequent in these cases.
+		lending := i%2 == 1
+		var hbuf, cbuf [64]byte
+		if lending {
+			k = 2 + r.Intn(4)
+		}
 		for j := 0; j < k; j++ {
 			h := make([]byte, r.Intn(12))
 			c := make([]byte, r.Intn(40))
+			if lending {
+				hl, cl := r.Intn(12), r.Intn(40)
+				if r.Chance(1, 3) {
+					hl = 0
+				} else if r.Chance(1, 3) {
+					cl = 0
+				}
+				h, c = hbuf[:hl], cbuf[:cl]
+				stats["writechunks-lent-buffers"]++
+				if hl == 0 || cl == 0 {
+					stats["writechunks-one-part"]++
+				}
+			}
 			for x := range h {
 				h[x] = byte(r.U64())
 			}
 			for x := range c {
 				c[x] = byte(r.U64())
 			}
+			hWant, cWant := append([]byte(nil), h...), append([]byte(nil), c...)
 			before := len(fs.sent)
 			if err := w.WriteChunk(h, c); err != nil {
 				propFail("C15 writechunk-error %v", err)
 			}
+			if !bytes.Equal(h, hWant) || !bytes.Equal(c, cWant) {
+				propFail("C15 writechunk-modifies-callers-slices case=cw-%d chunk %d: header %s content %s lent to WriteChunk came back as %s / %s", i, j, hx(hWant), hx(cWant), hx(h), hx(c))
+			}
+			h, c = hWant, cWant
 			if len(fs.sent) != before+1 {
 				propFail("C15 writechunk-message-count sent %d messages for one chunk", len(fs.sent)-before)
 				continue
